@@ -225,8 +225,15 @@ pub fn gen_filter(r: &mut Rng, prog: &Prog) -> FilterSpec {
 /// the remaining handles alive) and the raw id the subscriber issued for every span, by creation
 /// index.
 pub fn exec_collect(prog: &Prog) -> (ExecResult, Vec<u64>) {
+    exec_collect_with(prog, false)
+}
+
+/// `stale_roots`: explicit-root events name a span the Registry has already closed as their explicit
+/// parent, when there is one (see `ExecResult::stale_roots`).
+pub fn exec_collect_with(prog: &Prog, stale_roots: bool) -> (ExecResult, Vec<u64>) {
     let sites = make_sites(&prog.sites);
     let mut r = ExecResult::default();
+    r.stale_roots = stale_roots;
     let mut raws = vec![];
     for (tid, op) in &prog.ops {
         assert_eq!(*tid, 0, "single-threaded programs only");
@@ -509,21 +516,28 @@ pub fn dump_shared(storage: &SharedStorage) -> Option<(String, usize, usize)> {
 /// Runs the program under `Registry + CaptureLayer` configured by `filter`.
 /// Returns the dump (None = panic or poisoned storage), the raw ids and (spans, events) captured.
 pub fn run_capture(prog: &Prog, filter: &FilterSpec) -> (Option<String>, Vec<u64>, usize, usize) {
+    let (dump, raws, ns, ne, _) = run_capture_with(prog, filter, false);
+    (dump, raws, ns, ne)
+}
+
+/// Last component: the number of events emitted with a stale explicit parent (variant execution).
+pub fn run_capture_with(prog: &Prog, filter: &FilterSpec, stale_roots: bool) -> (Option<String>, Vec<u64>, usize, usize, usize) {
     let storage = SharedStorage::default();
     let subscriber = Registry::default().with(filter.attach(CaptureLayer::new(&storage)));
     let run = catch_unwind(AssertUnwindSafe(|| {
         tracing::subscriber::with_default(subscriber, || {
-            let (r, raws) = exec_collect(prog);
+            let (r, raws) = exec_collect_with(prog, stale_roots);
             // snapshot with the remaining handles alive, then drop them inside the scope
             let dump = dump_shared(&storage);
+            let stale_used = r.stale_used;
             drop(r);
-            (dump, raws)
+            (dump, raws, stale_used)
         })
     }));
     match run {
-        Ok((Some((text, ns, ne)), raws)) => (Some(text), raws, ns, ne),
-        Ok((None, raws)) => (None, raws, 0, 0),
-        Err(_) => (None, vec![], 0, 0),
+        Ok((Some((text, ns, ne)), raws, k)) => (Some(text), raws, ns, ne, k),
+        Ok((None, raws, k)) => (None, raws, 0, 0, k),
+        Err(_) => (None, vec![], 0, 0, 0),
     }
 }
 
@@ -534,7 +548,20 @@ fn capture_case(sink: &mut Sink, idx: u64, kind: &str, prog: &Prog, filter: &Fil
     let fexpr = filter.fexpr();
     let key = format!("{} {}", cprog(prog), fexpr.coq());
     intern_begin();
-    let (dump, raws, ns, ne) = run_capture(prog, filter);
+    let (mut dump, mut raws, mut ns, mut ne) = run_capture(prog, filter);
+    // An event whose explicit parent no longer exists has no ancestor: it must be captured exactly as
+    // an explicit-root event is.  The variant execution replaces `parent: None` by the id of a span the
+    // Registry has closed; when its storage differs, that storage is the one judged.
+    if prog.ops.iter().any(|(_, op)| matches!(op, Op::Event(_, ParentKind::Root, _))) {
+        let (vdump, vraws, vns, vne, used) = run_capture_with(prog, filter, true);
+        if used > 0 {
+            sink.bump_by("variant:events-with-stale-explicit-parent", used as u64);
+            if vdump != dump {
+                sink.bump("variant:stale-explicit-parent-DIFFERS-from-explicit-root");
+                (dump, raws, ns, ne) = (vdump, vraws, vns, vne);
+            }
+        }
+    }
     let term = format!(
         "judge_capture {} {} {} {}",
         cprog(prog),
